@@ -26,6 +26,9 @@ def main():
     name = sys.argv[1].lower()
     try:
         mod = importlib.import_module(f"checks.{name}")
+        from checks import common
+
+        common.install_watchdog()
         return mod.main(sys.argv[2:])
     except SystemExit:
         raise
